@@ -70,6 +70,8 @@ def setup(ctx):
         want = np.array([L, 0.0, 0.0]) + np.asarray(R_tilt, float) @ np.array([0.0, py * (dety - y0), pz * (detz - z0)])
         mon.close("post:detector.detector_to_lab", result, want, rtol=1e-12, atol=1e-9)
 
+    for f in ("detect_tilt", "form_omega_mat_general", "form_omega_mat", "quart_to_omega"):
+        ctx.hold(tools, f)
     for name, cond in (("det_coor", post_det_coor), ("det_coor2", post_det_coor2), ("det_v", post_det_v),
                        ("detector_to_lab", post_detector_to_lab)):
         observe.watch("detector.%s" % name, getattr(detector, name))
@@ -99,7 +101,7 @@ def workload(ctx):
             t[:] = 0
         elif os_ == "x":
             t[1:] = 0
-        yield "ray", {"tth": math.radians(float(rng.uniform(0.5, 60))), "eta": float(rng.uniform(0, 2 * math.pi)),
+        yield "ray", {"tth": math.radians(float(rng.uniform(0.5, 60))), "eta": float(rng.uniform(0, 2 * math.pi)) if i % 5 else float(rng.uniform(-4 * math.pi, 4 * math.pi)),
                       "tilt": [float(x) for x in tilt], "tilts": ts, "offs": os_, "t": [float(x) for x in t],
                       "L": float(10 ** rng.uniform(1, 3)), "py": float(rng.uniform(0.01, 0.5)), "pz": float(rng.uniform(0.01, 0.5)),
                       "y0": float(rng.uniform(-2000, 2000)), "z0": float(rng.uniform(-2000, 2000)),
@@ -121,6 +123,8 @@ def case_pipeline(ctx, p):
     mon, D, T = ctx.mon, ctx.D, ctx.T
     c, h, lam = p["cell"], p["hkl"], p["lam"]
     U = oracle.quat_to_mat(np.array(p["q"]))
+    if lam * oracle.stl(c, h) >= 0.5:
+        return
     tth = T.tth(c, h, lam)
     if not (math.radians(0.5) < tth < math.radians(60)):
         return
